@@ -28,7 +28,7 @@ var c06Class = map[string]string{
 	"/api/v0/oktaPushStart": "any-session", "/api/v0/oktaPollCheck": "any-session", "/api/v0/bootstrapOtpAuth": "any-session",
 	"/u2f/SignRequest": "any-session", "/u2f/SignResponse": "any-session", "/webauthn/AuthBegin/": "any-session",
 	"/webauthn/AuthFinish/": "any-session",
-	"/profile/": "webui", "/api/v0/manageU2FToken": "webui", "/api/v0/manageTOTPToken": "webui",
+	"/profile/":             "webui", "/api/v0/manageU2FToken": "webui", "/api/v0/manageTOTPToken": "webui",
 	"/u2f/RegisterRequest/": "webui", "/u2f/RegisterResponse/": "webui", "/webauthn/RegisterRequest/": "webui",
 	"/webauthn/RegisterFinish/": "webui", "/totp/GenerateNew/": "webui", "/totp/ValidateNew/": "webui",
 	"/api/v0/VerifyTOTP": "webui", "/idp/oauth2/authorize": "webui", "/showAuthToken": "webui", "/sendAuthDocument": "webui",
@@ -221,7 +221,8 @@ func TestVerifC06(t *testing.T) {
 		switch {
 		case !cred.Valid:
 			rule = "invalid-credential"
-		case crossSite && method != "GET" && method != "HEAD" && cred.Kind == "cookie":
+		case crossSite && method != "GET" && method != "HEAD" && class != "password-entry": // (the login endpoints take the password itself, typed into the request: not an ambient credential)
+			// whatever the credential: cookies, client certificates and cached basic-auth are all attached by the browser
 			rule = "cross-site-state-change"
 		case class == "webui" && (cred.Kind == "cert" || (cred.Bits&verifBit["U2F"]) == 0):
 			rule = "below-webui-level"
@@ -278,8 +279,9 @@ func TestVerifC06(t *testing.T) {
 		for _, cred := range shapes {
 			for _, m := range methods {
 				for _, o := range origins {
-					if !verifThorough() && o != "none" && !(cred.Valid && cred.Kind == "cookie") && (o != "cross-origin" || (len(tg.path)+len(cred.Name))%4 != 0) {
-						continue // quick: cross-site matters for valid cookies; sample the rest
+					ambient := cred.Valid && (cred.Kind == "cookie" || cred.Kind == "cert") // credentials a browser attaches by itself
+					if !verifThorough() && o != "none" && !ambient && (o != "cross-origin" || (len(tg.path)+len(cred.Name))%4 != 0) {
+						continue // quick: cross-site matters for valid cookies and client certificates; sample the rest
 					}
 					if !verifThorough() && (o == "null-origin" || o == "cross-referer") && m == "GET" {
 						continue
